@@ -43,7 +43,8 @@ FamProp(m) ==
       [] m = "spec" -> {"C10"}
       [] m = "persist" -> {"C26"}
       [] OTHER -> {}
-ValueProps == IF HasFix(P) THEN {"C12"} ELSE IF HasFb(P) THEN {"C13"} ELSE {"C01"} \cup FamProp(st.mode)
+ValueProps == (IF HasFix(P) THEN {"C12"} ELSE IF HasFb(P) THEN {"C13"} ELSE {"C01"} \cup FamProp(st.mode))
+              \cup (IF st.inject > 0 THEN {"C22"} ELSE {})
 CheckAll(ids, ok, detail) == IF ok THEN TRUE ELSE \A id \in ids : Viol(id, detail)
 
 SVals(inp, cell) ==
@@ -57,7 +58,7 @@ Fresh(p, s0) ==
         cur |-> [op |-> "none"], expect |-> "", stack |-> <<>>, fn |-> <<>>,
         structs |-> <<>>, order |-> <<>>, cap |-> p.lru_cap, handed |-> {},
         dropped |-> {}, evNow |-> {}, pend |-> {}, noC03 |-> FALSE, panics |-> 0,
-        mode |-> "", last |-> 0, cyc |-> HasCyc(p), inject |-> 0, injected |-> FALSE, s0 |-> s0,
+        injRev |-> 0, wpend |-> [op |-> "none"], applied |-> FALSE, injNow |-> FALSE, mode |-> "", last |-> 0, cyc |-> HasCyc(p), inject |-> 0, injected |-> FALSE, s0 |-> s0,
         idv |-> <<>>, itn |-> <<>>, iq |-> <<<<1>>, <<1, 1>>, <<1, 1, 1>>>>, canon |-> <<>>, canonRev |-> 0, prevId |-> <<>>]
 
 K0 == [has |-> FALSE, v |-> -1, hs |-> <<>>, is |-> <<>>, s |-> 0, deps |-> <<>>, untr |-> FALSE,
@@ -149,40 +150,47 @@ Evictable(k) == Fn(k).has /\ ~Fn(k).untr
 \* event handlers: each defines st'
 
 ev == Rec[l]
+\* bookkeeping-based predicates (identities, reclamation) are only evaluated in runs without injected
+\* panics: an interrupted execution leaves the monitor's copy of per-key metadata undefined
+Strict == st.inject = 0
 
 OnReset ==
     st' = [Fresh(ev.prog, ev.s0) EXCEPT !.inject = ev.inject, !.mode = ev.mode]
 
 IsMutOp(o) == o \in {"set", "synth", "cell", "lru", "evict"}
 
+\* A &mut operation takes effect when the writer proceeds (hook H4 `wproc`): a panic before that point
+\* (e.g. in the event callback) leaves the database untouched.
 OnOp ==
-    LET o == ev.op
-        base == [st EXCEPT !.cur = ev, !.stack = <<>>, !.evNow = {}]
-    IN
-    IF o = "set" THEN
-        LET old == st.inp[ev.i][ev.f]
-            r2 == st.rev + 1
+    LET base == [st EXCEPT !.cur = ev, !.stack = <<>>, !.evNow = {}, !.expect = "", !.injNow = FALSE] IN
+    IF IsMutOp(ev.op) THEN st' = [base EXCEPT !.wpend = ev] ELSE st' = base
+
+ApplyMut(s, o) ==
+    IF o.op = "set" THEN
+        LET old == s.inp[o.i][o.f]
+            r2 == s.rev + 1
             frozen == old.d = 3
-            inp2 == IF frozen THEN st.inp
-                    ELSE [st.inp EXCEPT ![ev.i][ev.f] =
-                            [v |-> ev.v, w |-> r2, d |-> IF ev.d >= 0 THEN ev.d ELSE old.d]]
-        IN st' = [base EXCEPT !.rev = r2, !.inp = inp2, !.handed = {},
-                              !.expect = IF frozen THEN "never" ELSE "",
-                              !.sem = IF frozen THEN st.sem ELSE SemOf(P, SVals(inp2, st.cell))]
-    ELSE IF o = "synth" THEN
-        st' = [base EXCEPT !.rev = st.rev + 1, !.handed = {},
-                           !.expect = IF ev.d = 3 THEN "never" ELSE ""]
-    ELSE IF o = "cell" THEN
-        LET c2 == [st.cell EXCEPT ![ev.k] = ev.v] IN
-        st' = [base EXCEPT !.rev = st.rev + 1, !.handed = {}, !.cell = c2,
-                           !.expect = IF ev.d = 3 THEN "never" ELSE "",
-                           !.sem = SemOf(P, SVals(st.inp, c2))]
-    ELSE IF o = "lru" THEN
-        st' = [base EXCEPT !.cap = ev.k, !.handed = {}, !.expect = "",
-                           !.order = IF ev.k = 0 THEN <<>> ELSE st.order]
-    ELSE IF o = "evict" THEN
-        st' = [base EXCEPT !.handed = {}, !.expect = ""]
-    ELSE st' = [base EXCEPT !.expect = ""]
+            inp2 == IF frozen THEN s.inp
+                    ELSE [s.inp EXCEPT ![o.i][o.f] =
+                            [v |-> o.v, w |-> r2, d |-> IF o.d >= 0 THEN o.d ELSE old.d]]
+        IN [s EXCEPT !.rev = r2, !.inp = inp2, !.handed = {},
+                     !.expect = IF frozen THEN "never" ELSE "",
+                     !.sem = IF frozen THEN s.sem ELSE SemOf(P, SVals(inp2, s.cell))]
+    ELSE IF o.op = "synth" THEN
+        [s EXCEPT !.rev = s.rev + 1, !.handed = {}, !.expect = IF o.d = 3 THEN "never" ELSE ""]
+    ELSE IF o.op = "cell" THEN
+        LET c2 == [s.cell EXCEPT ![o.k] = o.v] IN
+        [s EXCEPT !.rev = s.rev + 1, !.handed = {}, !.cell = c2,
+                  !.expect = IF o.d = 3 THEN "never" ELSE "",
+                  !.sem = SemOf(P, SVals(s.inp, c2))]
+    ELSE IF o.op = "lru" THEN
+        [s EXCEPT !.cap = o.k, !.handed = {}, !.order = IF o.k = 0 THEN <<>> ELSE s.order]
+    ELSE IF o.op = "evict" THEN [s EXCEPT !.handed = {}]
+    ELSE s
+
+OnWproc ==
+    IF st.wpend.op # "none" THEN st' = [ApplyMut(st, st.wpend) EXCEPT !.wpend = [op |-> "none"], !.applied = TRUE]
+    ELSE st' = st
 
 \* LRU obligations at the end of a &mut operation that runs eviction
 LruChecks ==
@@ -210,17 +218,22 @@ OnRetMut ==
                   THEN SubSeq(st.order, Len(st.order) - st.cap + 1, Len(st.order))
                   ELSE st.order
     IN
-    /\ Check("C02", (st.expect = "never") = (ev.ok = 0 /\ ev.kind = "never"),
+    /\ (~st.injNow) => Check("C02", (st.expect = "never") = (ev.ok = 0 /\ ev.kind = "never"),
              <<"never-change write outcome", st.expect, ev.ok, ev.kind>>)
-    /\ Check("C02", st.expect = "" => ev.ok = 1, <<"write panicked", ev.kind, ev.msg>>)
-    /\ (evicts => LruChecks)
-    /\ st' = [st EXCEPT !.cur = [op |-> "none"], !.order = order2,
+    /\ (~st.injNow) => Check("C02", st.expect = "" => ev.ok = 1, <<"write panicked", ev.kind, ev.msg>>)
+    /\ (~st.injNow) => Check("C02", st.applied, <<"write finished without the writer having proceeded", st.cur>>)
+    /\ st.injNow => Check("C22", ev.ok = 0 /\ ev.kind = "inject", <<"injected panic did not reach the caller of the write", ev.ok, ev.kind>>)
+    /\ ((Strict /\ evicts /\ st.applied) => LruChecks)
+    /\ st' = [st EXCEPT !.cur = [op |-> "none"], !.order = IF st.applied THEN order2 ELSE st.order,
+                        !.wpend = [op |-> "none"], !.applied = FALSE,
                         !.panics = IF ev.ok = 0 THEN st.panics + 1 ELSE st.panics]
 
 \* outcome class of a read operation against the reference semantics
 ReadOutcome(semr, semv, isAcc) ==
     LET inj == st.injected \/ st.inject > 0 IN
-    IF ev.ok = 1 THEN
+    IF st.injNow /\ ~(ev.ok = 0 /\ ev.kind = "inject") THEN
+        Check("C22", FALSE, <<"injected panic did not reach the caller", ev.ok, ev.kind, st.cur>>)
+    ELSE IF ev.ok = 1 THEN
         /\ Check("C14", semr.err # "cycle", <<"cyclic request returned a value", ev.v>>)
         /\ Check("C15", semr.err # "diverge", <<"diverging cycle returned a value", ev.v>>)
         /\ (semr.err = "" /\ ~isAcc) =>
@@ -232,6 +245,7 @@ ReadOutcome(semr, semv, isAcc) ==
         ELSE IF semr.err = "cycle" THEN Check("C14", ev.kind = "cycle", <<"wrong panic for cycle", ev.kind, ev.msg>>)
         ELSE IF semr.err = "diverge" THEN Check("C15", ev.kind \in {"iterlimit", "cancel_pp"}, <<"wrong panic for divergence", ev.kind, ev.msg>>)
         ELSE IF semr.err \in {"specforeign", "spectwice"} THEN TRUE
+        ELSE IF st.cyc /\ ev.kind = "cancel_pp" /\ st.injected /\ st.injRev = st.rev THEN TRUE   \* poisoned cycle memo, same revision
         ELSE CheckAll(IF inj THEN {"C22"} ELSE ValueProps, FALSE, <<"unexpected panic", ev.kind, ev.msg, st.cur>>)
     ELSE TRUE
 
@@ -245,7 +259,7 @@ OnRetRead ==
         /\ ReadOutcome(semr, semr.v, FALSE)
         /\ (ev.ok = 1 /\ semr.err = "") =>
               Check("C01", Len(ev.hs) = Len(semr.ss) /\ ev.ni = Len(semr.is), <<"number of exported handles differs", ev.hs, Len(semr.ss), ev.ni, Len(semr.is)>>)
-        /\ (ev.ok = 1 /\ Fn(k).untr) =>
+        /\ (Strict /\ ev.ok = 1 /\ Fn(k).untr) =>
               Check("C04", Fn(k).execRev = st.rev, <<"untracked function not re-executed in this revision", k>>)
         /\ st' = [Touch(st, k) EXCEPT !.cur = [op |-> "none"], !.stack = <<>>,
                      !.last = IF ev.ok = 1 THEN j ELSE 0,
@@ -278,7 +292,7 @@ OnRetRead ==
     ELSE st' = [st EXCEPT !.cur = [op |-> "none"], !.stack = <<>>]
 
 OnRet ==
-    /\ Check("C06", st.pend = {}, <<"stale tracked structs not discarded", st.pend>>)
+    /\ Strict => Check("C06", st.pend = {}, <<"stale tracked structs not discarded", st.pend>>)
     /\ IF IsMutOp(st.cur.op) THEN OnRetMut ELSE OnRetRead
 
 \* top-level field getters on the handles of the result just returned (st.last = fn index)
@@ -326,7 +340,7 @@ OnWe ==
 
 OnDv ==
     LET k == ev.k f == Fn(k) IN
-    /\ Check("C07", \A i \in 1..Len(f.deps) :
+    /\ Strict => Check("C07", \A i \in 1..Len(f.deps) :
                  LET d == f.deps[i] IN
                  /\ (d.t = "int" => Itn(d.a).gn = d.b)
                  /\ (d.t = "fld" => Struct(d.k).live),
@@ -367,7 +381,7 @@ OnRd ==
          [] d.t = "fn" ->
               /\ (st.sem[d.a].err = "" /\ ~st.cyc) =>
                     CheckAll(ValueProps, ev.v = st.sem[d.a].v, <<"nested result differs from from-scratch evaluation", d, ev.v, st.sem[d.a].v>>)
-              /\ Fn(d.k).untr =>
+              /\ (Strict /\ Fn(d.k).untr) =>
                     Check("C04", Fn(d.k).execRev = st.rev, <<"untracked function not re-executed in this revision", d.k>>)
          [] d.t = "fld" ->
               LET ss == SemStruct(d.k) IN
@@ -406,12 +420,12 @@ OnNew ==
         fr2 == [fr EXCEPT !.news = Append(fr.news, [ident |-> ev.ident, id |-> ev.id])]
     IN
     /\ Len(st.stack) > 0
-    /\ (~st.cyc /\ Fn(k).has /\ ord <= Len(prevSame) /\ Struct(prevSame[ord].id).live) =>
+    /\ (Strict /\ ~st.cyc /\ Fn(k).has /\ ord <= Len(prevSame) /\ Struct(prevSame[ord].id).live) =>
           Check("C06", prevSame[ord].id = ev.id,
                 <<"recreated struct received a different identity", k, ev.ident, ord, prevSame[ord].id, ev.id>>)
-    /\ Check("C06", \A i \in 1..Len(fr.news) : fr.news[i].id # ev.id,
+    /\ Strict => Check("C06", \A i \in 1..Len(fr.news) : fr.news[i].id # ev.id,
              <<"two structs of one execution share an identity", k, ev.id>>)
-    /\ (old.live) => Check("C06", old.creator = k /\ old.ident = ev.ident /\ old.ord = ord,
+    /\ (Strict /\ old.live) => Check("C06", old.creator = k /\ old.ident = ev.ident /\ old.ord = ord,
              <<"identity of a live struct handed to a different struct", ev.id, old.creator, k>>)
     /\ st' = PutStruct(SetTop(st, fr2), ev.id, sr)
 
@@ -502,11 +516,11 @@ OnDriv ==
         oldid == IdStr(ev.ix, old.gn)
         s1 == PutItn(st, ev.ix, [kind |-> ev.km - 20, v |-> -1, gn |-> ev.gn, last |-> st.rev, dur |-> -9])
     IN
-    /\ Check("C09", K \in 1..3, <<"slot of a non-collectable interned type reused", ev.k, old>>)
-    /\ Check("C09", old.dur <= 0, <<"slot of a value interned by a durable function reused", ev.k, old>>)
-    /\ Check("C09", primed, <<"slot reused before enough revisions used the type", ev.k, old, q>>)
-    /\ Check("C09", stale, <<"slot reused although the value was interned/validated recently", ev.k, old, q>>)
-    /\ Check("C09", ev.gn > old.gn, <<"slot reused without a new generation", ev.k, old>>)
+    /\ Strict => Check("C09", K \in 1..3, <<"slot of a non-collectable interned type reused", ev.k, old>>)
+    /\ Strict => Check("C09", old.dur <= 0, <<"slot of a value interned by a durable function reused", ev.k, old>>)
+    /\ Strict => Check("C09", primed, <<"slot reused before enough revisions used the type", ev.k, old, q>>)
+    /\ Strict => Check("C09", stale, <<"slot reused although the value was interned/validated recently", ev.k, old, q>>)
+    /\ Strict => Check("C09", ev.gn > old.gn, <<"slot reused without a new generation", ev.k, old>>)
     /\ st' = [s1 EXCEPT !.fn = [k \in DOMAIN s1.fn |->
                   IF s1.fn[k].km \in 11..14 /\ s1.fn[k].ki = oldid THEN [s1.fn[k] EXCEPT !.has = FALSE] ELSE s1.fn[k]]]
 
@@ -526,16 +540,16 @@ OnInt ==
           Check("C08", cn[key] = ev.id, <<"equal values interned to different handles in one revision", key, cn[key], ev.id>>)
     /\ Check("C08", \A k2 \in DOMAIN cn : (k2 # key /\ k2[1] = ev.kind) => cn[k2] # ev.id,
              <<"unequal values interned to the same handle in one revision", key, ev.id>>)
-    /\ Check("C08", it.gn = ev.gn /\ (it.v = -1 \/ it.v = ev.v),
+    /\ Strict => Check("C08", it.gn = ev.gn /\ (it.v = -1 \/ it.v = ev.v),
              <<"handle does not belong to the interned value", key, ev.id, it>>)
-    /\ (pv.ix >= 0 /\ (pv.ix # ev.ix \/ pv.gn # ev.gn)) =>
+    /\ (Strict /\ pv.ix >= 0 /\ (pv.ix # ev.ix \/ pv.gn # ev.gn)) =>
           Check("C08", Itn(pv.ix).gn > pv.gn,
                 <<"value changed its identity although its slot was not reclaimed", key, pv, ev.id>>)
     /\ st' = [SetTop(s1, fr2) EXCEPT !.canon = PutMap(cn, key, ev.id), !.canonRev = st.rev,
                                      !.prevId = PutMap(st.prevId, key, [ix |-> ev.ix, gn |-> ev.gn]),
                                      !.idv = PutMap(st.idv, ev.id, ev.v)]
 
-OnInject == st' = [st EXCEPT !.injected = TRUE, !.noC03 = TRUE]
+OnInject == st' = [st EXCEPT !.injected = TRUE, !.noC03 = TRUE, !.injNow = TRUE, !.injRev = st.rev]
 
 OnDbDropBegin == st' = [st EXCEPT !.handed = {}, !.cur = [op |-> "dbdrop"]]
 
@@ -573,6 +587,7 @@ TraceNext ==
          [] ev.e = "retained" -> OnRetained
          [] ev.e = "dd" -> OnDd
          [] ev.e = "specv" -> OnSpecv
+         [] ev.e = "wproc" -> OnWproc
          [] ev.e = "irec" -> OnIrec
          [] ev.e = "div" -> OnDiv
          [] ev.e = "dviv" -> OnDviv
